@@ -20,6 +20,9 @@ CRATES = {
             ("src/crypto/signature.rs", "mpq/signature.rs", "verif_kani_signature", ""),
             ("src/patch/apply.rs", "mpq/patch_apply.rs", "verif_kani_patch", ""),
             ("src/compression/algorithms/rle.rs", "mpq/rle.rs", "verif_kani_rle", ""),
+            ("src/header.rs", "mpq/header.rs", "verif_kani_header", ""),
+            ("src/compression/algorithms/adpcm.rs", "mpq/adpcm.rs", "verif_kani_adpcm", ""),
+            ("src/tables/hash.rs", "mpq/tables_hash.rs", "verif_kani_tables_hash", ""),
         ],
         "prepend": [("src/lib.rs", "#![cfg_attr(kani, feature(read_buf, core_io_borrowed_buf))]")],
     },
@@ -335,13 +338,13 @@ H("C08", "mpq", _P, "quick", "C08.a COPY patch: declared sizes are enforced", ["
 H("C08", "mpq", _P, "thorough", "C08.a BSD0: a well-formed bsdiff stream turns old into new", ["c08a_bsd0_wellformed"], ["patch::apply::apply_bsd0_patch"],
   "old and new file [u8; 4] symbolic; stream built per the bsdiff rule (diff = new - old)", "one control triple, 4-byte files", stubs=[FMT, RLE],
   abstraction_stubs=["rle::decompress"], timeout=2400)
-H("C08", "mpq", _P, "thorough", "C05.mpq.7 BSD0 applier is total on a hostile bsdiff header", ["c05_bsd0_header_total"], ["patch::apply::apply_bsd0_patch"],
+H("C05", "mpq", _P, "thorough", "C05.mpq.7 BSD0 applier is total on a hostile bsdiff header", ["c05_bsd0_header_total"], ["patch::apply::apply_bsd0_patch"],
   "control-block size, data-block size, new size (u64) and declared size_after symbolic", "bsdiff header only (32 bytes), new size <= 8",
   assumes=["32 + ctrl + data does not overflow u64 (known finding KF-C08-bsd0-overflow excluded)"], stubs=[FMT, RLE],
   abstraction_stubs=["rle::decompress"], timeout=2400)
 H("C08", "mpq", _P, "thorough", "C08 witness: control-block size 2^64-32", ["c08_bsd0_overflow_witness"], ["patch::apply::apply_bsd0_patch"],
   "concrete", "-", stubs=[FMT, RLE], abstraction_stubs=["rle::decompress"], expect="witness:KF-C08-bsd0-overflow", timeout=2400)
-H("C08", "mpq", _P, "quick", "C05.mpq.6 patch header parser is total; truncated headers are errors", ["c05_patch_header_total"],
+H("C05", "mpq", _P, "quick", "C05.mpq.6 patch header parser is total; truncated headers are errors", ["c05_patch_header_total"],
   ["patch::header::PatchHeader::parse"], "68 bytes symbolic behind the three assigned block signatures, symbolic truncation", "68-byte header", stubs=[FMT])
 H("C08", "mpq", _P, "quick", "canary", ["c08_canary"], ["patch::apply::apply_copy_patch"], "vacuity twin", "-", expect="canary", stubs=[FMT])
 H("C08", "mpq", _R, "quick", "C08.c RLE decoder == reference decoder, output exactly the declared size",
@@ -365,6 +368,31 @@ H("C19", "ffi", _F, "thorough", "C19.a read step: exactly min(to_read, remaining
 H("C19", "ffi", _F, "thorough", "C19.c never-issued and closed handles are errors", ["c19c_stale_handle"], ["SFileReadFile", "SFileCloseFile"],
   "handle 9 never issued, handle 7 closed before use", "-", stubs=[FMT, RS], timeout=2400)
 H("C19", "ffi", _F, "quick", "canary", ["c19_canary"], ["SFileGetFileSize"], "vacuity twin", "-", expect="canary", stubs=[FMT])
+
+# =============================================================================== C05 (mpq parsers)
+_HD = "verif_kani_header"
+_AD = "verif_kani_adpcm"
+_TH = "verif_kani_tables_hash"
+H("C05", "mpq", _HD, "quick", "C05.mpq.1 MpqHeader::read is total on arbitrary (also truncated) bytes behind the magic, per version tag; accepted headers have computable sector size and table positions",
+  ["c05_mpq_header_v1_total", "c05_mpq_header_v2_total", "c05_mpq_header_v3_total", "c05_mpq_header_v4_total"],
+  ["header::MpqHeader::read_with_limits", "security::validate_header_security", "header::MpqHeader::{sector_size,get_hash_table_pos,get_block_table_pos,get_archive_size}"],
+  "32/44/68/208 header bytes fully symbolic behind the assigned magic and version tag; symbolic truncation length", "one header", stubs=[FMT], timeout=900)
+H("C05", "mpq", _HD, "quick", "C05.mpq.1 header discovery terminates and reports no header for a file that contains none (incl. user-data headers pointing anywhere)",
+  ["c05_mpq_find_header_terminates"], ["header::find_header_with_limits"],
+  "file of <= 1040 bytes (symbolic length): 16 symbolic bytes at each scanned offset (0, 512), zeros elsewhere", "3 scan steps, unwind 6",
+  assumes=["no MPQ header magic at the scanned offsets"], stubs=[FMT], timeout=900, termination_of=["find_header_with_limits"])
+H("C05", "mpq", _HD, "quick", "canary", ["c05_mpq_header_canary"], ["header::MpqHeader::read"], "vacuity twin", "-", expect="canary", stubs=[FMT])
+H("C05", "mpq", _AD, "quick", "C05.mpq.8 ADPCM decoder is total on arbitrary input (no table index out of range), output bounded by the requested size",
+  ["c05_adpcm_mono_total_n5", "c05_adpcm_mono_total_n12", "c05_adpcm_stereo_total_n12", "c05_adpcm_next_step_index_in_table"],
+  ["compression::algorithms::adpcm::{decompress_mono,decompress_stereo,decompress_internal,get_next_step_index,decode_sample}"],
+  "input [u8; 5] / [u8; 12] fully symbolic (header, initial sample(s) and up to 8 coded bytes)", "inputs of 5 and 12 bytes", stubs=[FMT], timeout=900)
+H("C05", "mpq", _AD, "quick", "canary", ["c05_adpcm_canary"], ["compression::algorithms::adpcm::decompress_mono"], "vacuity twin", "-", expect="canary", stubs=[FMT])
+H("C05", "mpq", _TH, "quick", "C05.mpq.4 classic table decoders are total; lookups terminate and only return valid matching entries",
+  ["c05_hash_table_from_bytes_total", "c05_block_table_from_bytes_total", "c05_hash_table_find_total"],
+  ["tables::HashTable::from_bytes", "tables::BlockTable::from_bytes", "tables::HashTable::find_file"],
+  "table data <= 32 symbolic bytes, declared entry count u32 symbolic; 2-slot table with fully symbolic entries", "<= 2 entries",
+  stubs=[FMT], timeout=900, termination_of=["find_file"])
+H("C05", "mpq", _TH, "quick", "canary", ["c05_tables_canary"], ["tables::HashTable::from_bytes"], "vacuity twin", "-", expect="canary", stubs=[FMT])
 
 
 # =============================================================================== per-property fragments
